@@ -36,8 +36,20 @@ def same(fails, ctx, key, what, a, b, payload, size, tol=1e-7):
     return True
 
 
+FITS = [0]
+
+
+def refit(o, *a, **k):
+    """fit; every other time fit a second time with the same arguments: the equivalence is a property of the estimator,
+    not of its first fit() (weights multiplied into stored state would compound)"""
+    o.fit(*a, **k)
+    if FITS[0] % 2 == 1:      # decided per comparison (see both), the same for the weighted and the replicated run
+        o.fit(*a, **k)
+
+
 def both(fn, df, rep, key, what, fails, ctx, payload):
     """fn(frame, weights_or_None) -> vector of point estimates"""
+    FITS[0] += 1
     try:
         w = fn(df, 'w')
     except Exception as e:   # noqa
@@ -77,7 +89,7 @@ def estimator_part(ctx, fails):
                     ip = IPTW(frame, 'A', 'Y', weights=w, standardize=std)
                     ip.treatment_model(rhs, stabilized=stab, print_results=False)
                     ip.marginal_structural_model('A')
-                    ip.fit(continuous_distribution=dist) if dist else ip.fit()
+                    refit(ip, continuous_distribution=dist) if dist else refit(ip)
                     if otype == 'binary':
                         return [ip.risk_difference['RD'].iloc[1], ip.risk_ratio['RR'].iloc[1], ip.odds_ratio['OR'].iloc[1]]
                     return list(ip.average_treatment_effect['ATE'])
@@ -88,7 +100,7 @@ def estimator_part(ctx, fails):
                     ip = IPTW(frame, 'A', 'Y', weights=w, standardize=std)
                     ip.treatment_model(rhs, stabilized=stab, print_results=False)
                     ip.marginal_structural_model('A + ' + meta['covs'][0])
-                    ip.fit(continuous_distribution=dist) if dist else ip.fit()
+                    refit(ip, continuous_distribution=dist) if dist else refit(ip)
                     if otype == 'binary':
                         # the logistic MSM only: identity- and log-link binomial fits with a continuous covariate need not
                         # converge, and then there is nothing to compare
@@ -102,7 +114,7 @@ def estimator_part(ctx, fails):
                 def f(frame, w, p=p):
                     sp = StochasticIPTW(frame, 'A', 'Y', weights=w)
                     sp.treatment_model(rhs, print_results=False)
-                    sp.fit(p=p)
+                    refit(sp, p=p)
                     return [sp.marginal_outcome]
                 both(f, df, rep, 'StochasticIPTW.p', 'StochasticIPTW(p=%g)' % p, fails, ctx, payload)
         for std in ('population', 'exposed', 'unexposed'):
@@ -110,7 +122,7 @@ def estimator_part(ctx, fails):
                 def f(frame, w, std=std, plan=plan):
                     g = TimeFixedGFormula(frame, 'A', 'Y', outcome_type=otype, standardize=std, weights=w)
                     g.outcome_model('A + ' + rhs, print_results=False)
-                    g.fit(plan)
+                    refit(g, plan)
                     return [g.marginal_outcome]
                 both(f, df, rep, 'TimeFixedGFormula.%s' % std, 'TimeFixedGFormula(standardize=%s).fit(%s)' % (std, plan), fails, ctx, payload)
 
@@ -118,7 +130,7 @@ def estimator_part(ctx, fails):
             ai = AIPTW(frame, 'A', 'Y', weights=w)
             ai.exposure_model(rhs, print_results=False)
             ai.outcome_model('A + ' + rhs, continuous_distribution=dist, print_results=False) if dist else ai.outcome_model('A + ' + rhs, print_results=False)
-            ai.fit()
+            refit(ai)
             return [ai.risk_difference, ai.risk_ratio] if otype == 'binary' else [ai.average_treatment_effect]
         both(f, df, rep, 'AIPTW', 'AIPTW', fails, ctx, payload)
         # AIPTW with missing outcomes
@@ -131,7 +143,7 @@ def estimator_part(ctx, fails):
                 g = GEstimationSNM(frame, exposure='A', outcome='Y', weights=w)
                 g.exposure_model(rhs, print_results=False)
                 g.structural_nested_model('A')
-                g.fit()
+                refit(g)
                 return list(g.psi)
             both(f, df, rep, 'GEstimationSNM', 'GEstimationSNM', fails, ctx, payload)
 
@@ -153,7 +165,7 @@ def transport_part(ctx, fails):
             def f(frame, w, gen=gen):
                 e = GTransportFormula(frame, exposure='A', outcome='Y', selection='S', generalize=gen, weights=w)
                 e.outcome_model('A + ' + meta['rhs'], print_results=False)
-                e.fit()
+                refit(e)
                 return [e.risk_difference, e.risk_ratio]
             both(f, df, rep, 'GTransportFormula', 'GTransportFormula(generalize=%s)' % gen, fails, ctx, payload)
 
@@ -191,7 +203,7 @@ def survival_part(ctx, fails):
             def f(frame, w, plan=plan):
                 g = SurvivalGFormula(frame, idvar='id', exposure='A', outcome='d', time='t', weights=w)
                 g.outcome_model('A + C(t)', print_results=False)
-                g.fit(plan)
+                refit(g, plan)
                 return np.asarray(g.marginal_outcome, dtype=float)
             both(f, df, rep, 'SurvivalGFormula', 'SurvivalGFormula.fit(%s)' % plan, fails, ctx, payload)
 
@@ -211,10 +223,10 @@ def coq_part(ctx, fails):
             ip = IPTW(df, 'A', 'Y', weights='w')
             ip.treatment_model(meta['sat_L'], stabilized=False, print_results=False)
             ip.marginal_structural_model('A')
-            ip.fit()
+            refit(ip)
             g = TimeFixedGFormula(df, 'A', 'Y', weights='w', standardize='population')
             g.outcome_model(meta['sat_AL'], print_results=False)
-            g.fit('all')
+            refit(g, 'all')
             q1 = np.asarray(g.predicted_df['Y'], dtype=float)
             gf1 = float(g.marginal_outcome)
         except Exception as e:   # noqa
